@@ -402,6 +402,14 @@ def negative_controls(run, md, events, viol):
 
 def main(tier, only=None):
     run = Run("C16", tier)
+    try:
+        return _main(run, tier)
+    except BaseException:
+        run.cleanup()          # scratch directories must not outlive a machinery error
+        raise
+
+
+def _main(run, tier):
     sd = seed()
     rng = random.Random(sd)
     d, md, parsed, K, listed, unmodelled = prepare_spec(run)
